@@ -8,7 +8,7 @@ git -C /repo worktree add --detach "$WT" HEAD >/dev/null 2>&1 || { echo "{\"erro
 cp /repo/src/aioquic/*.so "$WT/src/aioquic/" 2>/dev/null
 cd "$WT"
 touches_c=0; grep -q '^+++ b/.*\.c$' "$SEED/patch.diff" && touches_c=1
-run_demo() { ( cd "$SEED" && sed "s#/tmp/wt/C[0-9][0-9]#$WT#g" demo.py > "$WT/_demo.py" && cd "$WT" && PYTHONPATH="$WT/src" timeout 300 /venv/bin/python _demo.py >"$WT/_demo.out" 2>&1; echo $? ); }
+run_demo() { ( cd "$SEED" && sed "s#/tmp/wt5\?/C[0-9][0-9]#$WT#g" demo.py > "$WT/_demo.py" && cd "$WT" && PYTHONPATH="$WT/src" timeout 300 /venv/bin/python _demo.py >"$WT/_demo.out" 2>&1; echo $? ); }
 base_rc=$(run_demo)
 if ! git apply "$SEED/patch.diff" 2>"$WT/_apply.err"; then
   echo "{\"error\":\"patch does not apply\", \"detail\": \"$(head -c 200 $WT/_apply.err | tr '\n\"' '  ')\"}" > "$OUT"
